@@ -39,7 +39,11 @@ def prepare(ctx):
     """Translator tie (see gen_tie.py): the statements of the BaseART methods are regenerated from the source and the
     theorems about the generated definitions are re-checked"""
     from .gen_tie import gen_prepare
-    gen_prepare(ctx, ['Control.partial_fit_spec', 'Control.fit_spec', 'Control.partial_fit_append', 'Control.fit_history_independent', 'Control.fit_one_eq_partial_fit_fresh'], "BaseART.partial_fit / fit (translated statements): batching is irrelevant, fit forgets the earlier model")
+    gen_prepare(ctx, ['Control.partial_fit_spec', 'Control.fit_spec', 'Control.partial_fit_append', 'Control.fit_history_independent', 'Control.fit_one_eq_partial_fit_fresh',
+                      'Whole.dual_partial_fit_append', 'Whole.dual_fit_eq_partial_fits', 'Whole.dual_refit_eq_fresh',
+                      'Whole.topo_partial_fit_never_prunes'],
+                "BaseART.partial_fit / fit (translated statements): batching is irrelevant, fit forgets the earlier model; the same for the "
+                "loops re-translated for a DualVigilanceART receiver; for TopoART the generated partial_fit provably never prunes (finding F11)")
 
 
 def run(ctx):
@@ -92,6 +96,25 @@ def run(ctx):
                     ctx.issue("violation", sig, f"partition {parts} of {n} samples gives a different model than fit",
                               dict(desc, partition=parts))
                 cov.hit("partition-vs-fit")
+                # the same partition fed through ONE recycled batch buffer that the caller overwrites with the next
+                # batch (and scribbles over at the end): the stream is the same, so is the result
+                if len(parts) >= 2 and i % 2 == 0:
+                    est = fam.make()
+                    bufs = rows.buffers(max(parts))
+                    j = 0
+                    for p in parts:
+                        fam.pfit(est, rows.sl_into(bufs, j, j + p))
+                        j += p
+                    snap_b = fam.snap(est)
+                    for b_ in bufs.values():
+                        for t_ in (b_ if isinstance(b_, list) else [b_]):
+                            if t_.dtype.kind == "f":
+                                t_[...] = 0.5
+                    if not eq_snap(snap_b, ref_snap) or not eq_snap(fam.snap(est), ref_snap):
+                        ctx.issue("violation", f"{name}:partial_fit-from-recycled-buffer!=fit",
+                                  f"partition {parts} of {n} samples handed over through one reused batch buffer gives a different model than "
+                                  "fit on the concatenation (the model follows the caller's buffer)", dict(desc, partition=parts))
+                    cov.hit("partition-through-recycled-buffer")
             except Exception as e:
                 ctx.issue("violation", f"{name}.partial_fit:{exc_enum(e)}",
                           f"partial_fit over partition {parts} raised {e!r} where fit succeeds", dict(desc, partition=parts))
